@@ -4,7 +4,7 @@ import ScVerif.C13.WF
 
 ```
 wrap|grpc|legacy|wf <shape> <out-md> <srv-ops> <fin> <cli-ops>
-open stream|invoke <method> <clientStreams> <serverStreams>
+open stream|invoke <method> <clientStreams> <serverStreams> live|cancel|deadline
 ```
 Encodings are those of harness/cmd/c13/script.go. -/
 namespace ScVerif.C13
@@ -103,9 +103,23 @@ def showOpen : Open → String
   | .ok => "ok"
   | .unimplemented => "Unimplemented"
   | .internal => "Internal"
+  | .ctxEnded .cancel => "Canceled"
+  | .ctxEnded .deadline => "DeadlineExceeded"
 
 def handleOpt (toks : List String) : Option String :=
   match toks with
+  | ["open", via, method, cs, ss, pre] => do
+    let cs ← parseBool? cs
+    let ss ← parseBool? ss
+    let ctx ← (match pre with
+      | "live" => some none
+      | "cancel" => some (some Abort.cancel)
+      | "deadline" => some (some Abort.deadline)
+      | _ => none)
+    match via with
+    | "stream" => pure (showOpen (Conn.newStream testApi ctx method cs ss))
+    | "invoke" => pure (showOpen (Conn.invoke testApi ctx method))
+    | _ => none
   | [op, sh, out, srv, fin, cli] => do
     let shape ← parseShape? sh
     let out ← parseMD? out
@@ -117,13 +131,6 @@ def handleOpt (toks : List String) : Option String :=
     | "legacy" => pure (showTranscript (Wrap.runCfg Cfg.legacy shape out ss fin cs))
     | "grpc" => pure (showTranscript (GrpcRef.run shape out ss fin cs))
     | "wf" => pure (showBool (WFScripts shape ss fin cs))
-    | _ => none
-  | ["open", via, method, cs, ss] => do
-    let cs ← parseBool? cs
-    let ss ← parseBool? ss
-    match via with
-    | "stream" => pure (showOpen (Conn.newStream testApi method cs ss))
-    | "invoke" => pure (showOpen (Conn.invoke testApi method))
     | _ => none
   | _ => none
 
